@@ -61,6 +61,7 @@ fn dispatch(prop: &str, ctx: &mut Ctx) {
         "lsexport" => lsexport::run(ctx),
         "cli" => wasmapi::cli_worker(ctx),
         "wasme2e" => wasmapi::e2e_worker(ctx),
+        "wasmignoreproc" => wasmapi::ignore_proc_worker(ctx),
         "wasmignore" => wasmapi::ignore_worker(ctx),
         "wasmdict" => wasmapi::dict_worker(ctx),
         "C19" => c19::worker(ctx),
